@@ -14,6 +14,7 @@ package agent
 import (
 	"fmt"
 	"testing"
+	"time"
 
 	"github.com/postalsys/muti-metroo/internal/sleep"
 	"github.com/postalsys/muti-metroo/internal/verifkit"
@@ -32,6 +33,14 @@ func TestVerif_C28_Agent(t *testing.T) {
 		dirs[i] = t.TempDir()
 	}
 	r.ParCases("frames", n, 4, func(ci int, rng *verifkit.Rand) { c28AgentCase(r, "frames", ci, rng, dirs[ci]) })
+	np := r.N(9, 48)
+	pdirs := make([]string, np)
+	for i := range pdirs {
+		pdirs[i] = t.TempDir()
+	}
+	r.ParCases("pending", np, 12, func(ci int, rng *verifkit.Rand) { c28PendingCase(r, "pending", ci, rng, pdirs[ci]) })
+	r.Require("pending_replays_judged", 6)
+	r.Require("pending_dedup_entry_dropped", 4)
 	r.Require("valid_transitions", 30)
 	r.Require("invalid_effective_no_effect", 60)
 	r.Require("queued_state_frames", 40)
@@ -228,4 +237,157 @@ func c28AgentCase(r *verifkit.R, phase string, ci int, rng *verifkit.Rand, dir s
 	if nt && r.NeedSample() {
 		r.Sample(steps)
 	}
+}
+
+// c28PendingCase: the agent's flooder remembers a wake command (the "pending wake", kept
+// for peers that connect later) — because the agent accepted it, or because the agent
+// originated it itself (FloodWakeCommand does not verify; on a verify-only agent a locally
+// triggered wake is unsigned). Later, when the dedup entry has been cleaned up and the
+// command is invalid at the current time (unsigned, or its timestamp has left the window),
+// the identical command arrives through WAKE_COMMAND or QUEUED_STATE while the agent
+// sleeps. It must have no effect. Time: a 2 s window / 1 s TTL flooder and real waiting;
+// only a lower bound on the elapsed time enters the verdict (the command is >= 2 x window
+// old); whether the background cleanup already dropped the dedup entry only decides
+// whether a defect can show, never whether a violation is reported.
+func c28PendingCase(r *verifkit.R, phase string, ci int, rng *verifkit.Rand, dir string) {
+	const window = 2 * time.Second
+	const ttl = time.Second
+	h, err := c28NewRigTimed(r, rng, dir, 2, window, ttl)
+	if err != nil {
+		r.Inconclusive("rig: " + err.Error())
+		return
+	}
+	defer h.stop()
+	g := h.gen
+	variant := []string{"accepted-then-expired", "local-unsigned", "local-stale-signed"}[ci%3]
+	var steps []c28AStep
+	step := func(path string, c *c28Cmd, run func()) (int, int, int) {
+		h.takeEvents()
+		before := h.a.sleepMgr.GetState()
+		run()
+		rx := h.barrier()
+		sl, wk := h.takeEvents()
+		fw := len(c28RxTuples(rx))
+		st := c28AStep{Path: path, Before: before.String(), After: h.a.sleepMgr.GetState().String(), Sleeps: sl, Wakes: wk, Forwards: fw}
+		if c != nil {
+			st.Cmds = []map[string]any{c.witness()}
+		}
+		steps = append(steps, st)
+		return sl, wk, fw
+	}
+	fresh := func(wake bool) *c28Cmd { g.now = time.Now(); return g.genuineAt(wake, 0) }
+	giveUp := func(why string) {
+		r.Add("pending_setup_incomplete", 1)
+		r.Eval(fmt.Sprintf("pending-%s-%s", variant, why), false)
+	}
+
+	// the agent goes to sleep on a valid command
+	h.connect()
+	if h.broken != "" {
+		r.Inconclusive(h.broken)
+		return
+	}
+	s1 := fresh(false)
+	if sl, _, _ := step("sleep-frame", s1, func() { h.a.processFrame(h.ids[0], c28SleepFrame(s1)) }); sl == 0 {
+		giveUp("no-sleep")
+		return
+	}
+	h.connect()
+	if h.broken != "" {
+		r.Inconclusive(h.broken)
+		return
+	}
+	t0 := time.Now()
+	var x *c28Cmd
+	family := ""
+	switch variant {
+	case "accepted-then-expired":
+		x = fresh(true)
+		t0 = g.now
+		if _, wk, _ := step("wake-frame", x, func() { h.a.processFrame(h.ids[0], c28WakeFrame(x)) }); wk == 0 {
+			giveUp("no-wake")
+			return
+		}
+		s2 := fresh(false)
+		if sl, _, _ := step("sleep-frame", s2, func() { h.a.processFrame(h.ids[0], c28SleepFrame(s2)) }); sl == 0 {
+			giveUp("no-second-sleep")
+			return
+		}
+		h.connect() // right away: the pending wake is still fresh and goes to the new peers (allowed)
+		if h.broken != "" {
+			r.Inconclusive(h.broken)
+			return
+		}
+		family = "expired-copy-of-accepted"
+	case "local-unsigned":
+		x = g.invalid("unsigned", true, nil)
+		x.Origin = h.a.ID()
+		x.TS = uint64(time.Now().Unix())
+		g.finish(x)
+		step("FloodWakeCommand", x, func() { h.a.flooder.FloodWakeCommand(x.wakeCmd()) })
+		family = "unsigned"
+	default:
+		x = g.fresh(true)
+		x.Origin = h.a.ID()
+		x.TS = g.tsAt(-3 * window)
+		x.TSIn = false
+		x.Class = "stale-signed-past-3w"
+		g.sign(x, g.good)
+		g.finish(x)
+		step("FloodWakeCommand", x, func() { h.a.flooder.FloodWakeCommand(x.wakeCmd()) })
+		family = "signed-stale"
+	}
+	// real time passes: at least 2 x window since the command was stamped
+	if d := 2*window + 50*time.Millisecond - time.Since(t0); d > 0 {
+		time.Sleep(d)
+	}
+	if time.Since(t0) < 2*window {
+		r.Inconclusive("time.Sleep returned early")
+		return
+	}
+	// give the flooder's own cleanup loop (every ttl/2) the chance to drop the dedup entries
+	dropped := false
+	for i := 0; i < 200; i++ {
+		if h.a.flooder.SleepCommandSeenCacheSize() == 0 {
+			dropped = true
+			break
+		}
+		time.Sleep(50 * time.Millisecond)
+	}
+	if dropped {
+		r.Add("pending_dedup_entry_dropped", 1)
+	}
+	x.TSIn = x.TSIn && variant != "accepted-then-expired"
+	if variant == "accepted-then-expired" {
+		x.Class = "expired-copy-of-accepted"
+	}
+	if x.valid() {
+		r.Inconclusive("harness error: pending-case command still counts as valid")
+		return
+	}
+	// the identical command arrives again; no reconnect in between (a new peer would make
+	// the flooder expire its pending wake)
+	path := "wake-frame"
+	run := func() { h.a.processFrame(h.ids[0], c28WakeFrame(x)) }
+	if rng.Bool() {
+		path = "queued-wake"
+		run = func() { h.a.processFrame(h.ids[0], c28QueuedFrame(nil, x)) }
+		r.Add("queued_state_frames", 1)
+	}
+	x.SeenBy = nil
+	_, wk, fw := step(path, x, run)
+	if h.broken != "" {
+		r.Inconclusive(h.broken)
+		return
+	}
+	r.Add("pending_replays_judged", 1)
+	if wk > 0 {
+		r.Violation("agent:"+path+":"+family+":woke-after-pending", phase, ci,
+			"the agent woke on a command that is invalid now but identical to the wake command its flooder still holds as pending", steps)
+	}
+	if fw > 0 {
+		r.Violation("agent:"+path+":"+family+":forwarded-after-pending", phase, ci,
+			"the agent forwarded a command that is invalid now but identical to the wake command its flooder still holds as pending", steps)
+	}
+	r.Eval(fmt.Sprintf("pending-%s-%s-%v-%d-%d", variant, path, dropped, wk, fw), true)
 }
